@@ -49,10 +49,10 @@ RULE = (
     "columns x, x_1, y), explicit names from a pool that needs escaping (% ( ) : [ ] . blank) and that collides "
     "after escaping or after expansion, repeated binds (same object twice), expanding IN of length 0..4 (also "
     "literal_execute), literal_execute scalars, values overridden at execute(), binds typed with a TypeDecorator whose "
-    "bind processor sends v to 10 v + k (plain and expanding, also with names that need escaping); plus dedicated families for the four "
+    "bind processor sends v to 10 v + k (plain and expanding, also with names that need escaping); plus dedicated families for the three "
     "defective regions (escape collision - also with an expanding / literal_execute partner, expanded-name collision, "
-    "literal_execute with an escaped name, one name used with and without literal_execute) and for a scalar passed to "
-    "an expanding bind.  Each case is run under all six paramstyles.  non-trivial = the statement "
+    "one name used with and without literal_execute), for the two repaired ones (literal_execute with an escaped name; "
+    "a tuple-typed expanding bind used twice - oracle only) and for a scalar passed to an expanding bind.  Each case is run under all six paramstyles.  non-trivial = the statement "
     "has >= 3 bind occurrences and (a repeated bind, or an expanding/literal_execute bind, or a name needing escaping, "
     "or bind_names order different from text order)"
 )
@@ -79,7 +79,7 @@ ASSUMPTIONS = [
 LEVEL_TEXT = (
     "Coq proof over the transcription of the compiler's parameter plumbing: for every token list, bind order, "
     "classification, parameter dictionary and each of the six paramstyles, inside the guard (escaped names of distinct "
-    "binds distinct, expanded names fresh, literal_execute names not escaped, values of the right shape) the "
+    "binds distinct, expanded names fresh, values of the right shape) the "
     "(statement, parameters) pair handed to the driver inlines to exactly the statement with every bind replaced by "
     "its own value; positiontup is the text order of binds; numeric placeholders are a contiguous 1..n numbering; "
     "refutations outside the guard with concrete witnesses (wrong value delivered silently under every paramstyle, "
